@@ -157,7 +157,7 @@ func c17Run(r *Run, h int) {
 			n = 20 + rng.Intn(20)
 		}
 		for k := n; k > 0; k-- {
-			plans[ci] = append(plans[ci], []string{"inc", "inc", "rmw", "claim", "move", "share", "drop", "dropclaim", "lookclaim"}[rng.Intn(9)])
+			plans[ci] = append(plans[ci], []string{"inc", "inc", "rmw", "cas", "cas", "claim", "move", "share", "drop", "dropclaim", "lookclaim"}[rng.Intn(11)])
 		}
 	}
 	seeds := make([]int64, nCli)
@@ -214,6 +214,29 @@ func c17Run(r *Run, h int) {
 							Rows: []Row{{"n": VA(AI(cur))}}, Timeout: &zero},
 						{Op: "update", Table: "Ctr", Where: []WCondJ{{Col: "name", Fn: "==", Val: VA(AS(ctr))}}, Row: Row{"n": VA(AI(cur + 1))}},
 						logOp}
+				case "cas":
+					// compare and set: read, then write back read+1 to the row named by its uuid provided it still
+					// holds the value read (a guarded update: it reports count 0 when it lost the race)
+					sel, err := c.Transact(ctx, OperationJ{Op: "select", Table: "Ctr", Where: []WCondJ{{Col: "name", Fn: "==", Val: VA(AS(ctr))}}}.toOvs())
+					if err != nil || len(sel) != 1 || len(sel[0].Rows) != 1 {
+						continue
+					}
+					cur := int64(0)
+					switch v := sel[0].Rows[0]["n"].(type) {
+					case float64:
+						cur = int64(v)
+					case int:
+						cur = int64(v)
+					}
+					cu := mkUUID(1)
+					if ctr == "c1" {
+						cu = mkUUID(2)
+					}
+					where := []WCondJ{{Col: "_uuid", Fn: "==", Val: VA(AU(cu))}, {Col: "n", Fn: "==", Val: VA(AI(cur))}}
+					if lr.Intn(2) == 0 {
+						where[0], where[1] = where[1], where[0]
+					}
+					ops = []OperationJ{{Op: "update", Table: "Ctr", Where: where, Row: Row{"n": VA(AI(cur + 1))}}, logOp}
 				case "claim":
 					nm := names[lr.Intn(len(names))]
 					ops = []OperationJ{{Op: "insert", Table: "Uniq", UUID: mkUUID(200000 + ci*1000 + k), Row: Row{"name": VA(AS(nm)), "n": VA(AI(int64(ci)))}}, logOp}
@@ -450,6 +473,14 @@ func c17Run(r *Run, h int) {
 			for _, o := range t.Ops {
 				if o.Table == "Ctr" && len(o.Where) > 0 && (o.Op == "mutate" || o.Op == "update") {
 					incs[o.Where[0].Val.A.S]++
+				}
+			}
+		}
+		// a compare-and-set counts when it says it wrote
+		if t.Accepted && t.Kind == "cas" && len(t.Results) > 0 && strings.HasPrefix(t.Results[0], "count=1") {
+			for _, w := range t.Ops[0].Where {
+				if w.Col == "_uuid" {
+					incs[map[string]string{mkUUID(1): "c0", mkUUID(2): "c1"}[w.Val.A.S]]++
 				}
 			}
 		}
